@@ -42,6 +42,12 @@ def conv_interval(d, form='datetime', container='list'):
                     vals = pd.DatetimeIndex([pd.Timestamp(x) for x in v])
                 elif container == 'array':
                     vals = np.array([pd.Timestamp(x) for x in v])
+                elif container in ('np_D', 'np_h', 'np_m', 'np_ns'):
+                    # numpy datetime64 array in a given unit (only if every date is representable in it, else ns)
+                    ts = [pd.Timestamp(x) for x in v]
+                    unit = container[3:]
+                    ok = all(t == t.floor({'D': 'D', 'h': 'h', 'm': 'min', 'ns': 'ns'}[unit]) for t in ts)
+                    vals = np.array([np.datetime64(t.to_datetime64(), unit if ok else 'ns') for t in ts], dtype='datetime64[%s]' % (unit if ok else 'ns'))
                 out[k] = vals
             else:
                 out[k] = to_date(v, form)
